@@ -15,7 +15,7 @@ func init() { register("C09", checkC09) }
 func checkC09(p *Prog, r *Result, tier string) {
 	r.Technique = "unit/shape rules on the fold over the plugin answers (a Go map, so the order is arbitrary): who-returns rule on the merge function, per-field term analysis of every merged entry literal, divisor rule in the caller"
 	r.Explanation = "The caller folds the answers with acc = merge(acc, answer) starting from nil and then divides Rate and Usage of every entry by its Weight (FOLD, DIV). For the quotient to be the weight-averaged value independent of the answer order, every entry the merge function returns must carry weight-scaled sums: " +
-		"UN1 the merge function never returns one of its parameters as it is (an unscaled first answer) — every returned map is built locally; UN2 in every entry literal it builds, Rate and Usage are sums whose terms are either a field of the accumulator entry (already scaled) or `x.F * x.Weight` of one answer entry, Weight is the sum of the Weight fields of all its sources, Capacity is the minimum over (or the only one of) its sources; UN3 a node is kept only when the other operand has it too (lookup with ok-check); UN4 the branch that copies a single answer is guarded by `acc == nil` (nothing merged yet), never by emptiness; FOLD2 every call of the merge function passes (accumulator, answer) in that order."
+		"UN1 the merge function never returns one of its parameters as it is (an unscaled first answer) — every returned map is built locally; UN2 in every entry literal it builds, Rate and Usage are sums whose terms are either a field of the accumulator entry (already scaled) or `x.F * x.Weight` of one answer entry, Weight is the sum of the Weight fields of all its sources, Capacity is the minimum over (or the only one of) its sources; UN3 a node is kept only when the other operand has it too (lookup with ok-check); UN4 the branch that copies a single answer is guarded by `acc == nil` (nothing merged yet), never by emptiness; UN5 every entry stored into the result is such a literal, never an entry of an operand; FOLD2 every call of the merge function passes (accumulator, answer) in that order."
 	r.NotCovered = "floating-point non-associativity of the sums; a plugin answering with weight 0; plugins that fail (the call helper's policy)"
 	r.Assumptions = []string{"the accumulator is only ever produced by the merge function itself (checked by FOLD)", "A5 no NaN/Inf in usage/rate"}
 	r.min("FOLD", 1)
@@ -115,6 +115,37 @@ func checkC09(p *Prog, r *Result, tier string) {
 		})
 		r.check(len(bad) == 0 && nret > 0, "UN1", M.Name+" / never returns an operand unscaled", p.pos(M.Decl), fmt.Sprintf("%d return(s), each of a locally built map", nret),
 			strings.Join(bad, "; ")+": the first answer reaches `/= Weight` without having been multiplied by its weight, so usage and rate come out divided by the weight, and with several plugins the result depends on which answer the map yields first")
+	}
+	// ---- UN5: every entry stored into the result is a freshly built literal (judged by UN2), never an entry taken over
+	// from an operand — an entry copied from the accumulator has not been given this answer's weighted share
+	{
+		nst, bad := 0, ""
+		ast.Inspect(M.Body, func(n ast.Node) bool {
+			as, ok := n.(*ast.AssignStmt)
+			if !ok || len(as.Lhs) != 1 || len(as.Rhs) != 1 {
+				return true
+			}
+			ix, ok := unparen(as.Lhs[0]).(*ast.IndexExpr)
+			if !ok {
+				return true
+			}
+			t := M.typeOf(ix.X)
+			if t == nil || !strings.Contains(t.String(), "NodeDeployCapacity") {
+				return true
+			}
+			nst++
+			rhs := unparen(as.Rhs[0])
+			if u, ok := rhs.(*ast.UnaryExpr); ok && u.Op == token.AND {
+				rhs = unparen(u.X)
+			}
+			if _, isLit := rhs.(*ast.CompositeLit); !isLit {
+				bad = "`" + exprStr(as.Lhs[0]) + " = " + exprStr(as.Rhs[0]) + "` at " + p.pos(as)
+			}
+			return true
+		})
+		r.min("UN5", 1)
+		r.check(nst > 0 && bad == "", "UN5", M.Name+" / every entry stored is a freshly built literal", p.pos(M.Decl), fmt.Sprintf("%d store(s), each of a literal", nst),
+			bad+" stores an entry taken from an operand: the answer being merged contributes neither its weighted usage and rate nor its weight to that node, so the averaged values depend on the order in which the plugins answer")
 	}
 	// ---- UN2 / UN3: entry literals
 	accP, ansP := M.paramObj(0), M.paramObj(1)
